@@ -1171,7 +1171,7 @@ def check_topo(prop, what, tier, seed):
                 if not (o['distinct_in_range'] and o['acyclic']) or ('fvs_size' in rec and int(rec['fvs_size']) != o['size']):
                     return n, 'greedy_fvs differs on %s: %s' % (rec['edges'], o)
             else:
-                if not (o['bijection'] and o['forest_ok'] and o['flag_ok'] and o['components'] == o['exp_components'] and o['dim'] == o['exp_dim']):
+                if not (o['bijection'] and o['forest_ok'] and o['flag_ok'] and o.get('copies_ok', True) and o['components'] == o['exp_components'] and o['dim'] == o['exp_dim']):
                     return n, 'ForestIndex differs on %s: %s' % (rec['edges'], o)
             n += 1
         return n, None
@@ -1179,7 +1179,7 @@ def check_topo(prop, what, tier, seed):
     def bad(o, rec, obl):
         if what == 'fvs':
             return not (o['distinct_in_range'] and o['acyclic']) or (o['exp_dim'] == 0 and o['size'] != 0 if 'exp_dim' in o else False)
-        return not (o['bijection'] and o['forest_ok'] and o['flag_ok'] and o['components'] == o['exp_components'] and o['dim'] == o['exp_dim'])
+        return not (o['bijection'] and o['forest_ok'] and o['flag_ok'] and o.get('copies_ok', True) and o['components'] == o['exp_components'] and o['dim'] == o['exp_dim'])
 
     def confirm(agg, rbin, out):
         items = [(rec, obl) for rec, obl in agg.violated[:30]] + [(rec, {'name': prop + ':crash'}) for rec in agg.crashes[:10]]
